@@ -62,6 +62,7 @@ DoOp(op, a) ==
     [] op = "Associate" -> Associate(a[1], a[2])
     [] op = "Dissociate" -> Dissociate(a[1], a[2])
     [] op = "Wipe" -> Wipe
+    [] op = "String" -> StringOp
 
 TCall ==
   /\ IsEvent("call")
